@@ -281,6 +281,7 @@ def compare(cfg, cases, impl, model):
                 findings.append(Finding('property', cfg, ci, li, req, I, M, S, 'the implementation did not answer (abort or non-termination)')); break
             if IS == 'BAD' or (S != '-' and 'panic' in I and IS != 'ok'):
                 findings.append(Finding('property', cfg, ci, li, req, I, M, S))
+                if req.startswith('m ') and 'panic' in I: break     # the object is gone; what follows says nothing new
             elif I != M and I != '-':
                 findings.append(Finding('tie', cfg, ci, li, req, I, M, S))
     return findings, stats
@@ -420,8 +421,9 @@ def main():
         # one replay per distinct failing request kind (first few), shrunk
         seen = set()
         for f in prop_f:
-            key = ' '.join(f.line.split(' ')[:3]) if f.kind == 'property' else 'config'
-            if key in seen or len(seen) >= 5: continue
+            t = f.line.split(' ')
+            key = (' '.join([t[0]] + t[2:3]) if t[0] in ('q', 'm', 'it', 'new') else t[0]) if f.kind == 'property' else 'config'
+            if key in seen or len(seen) >= 8: continue
             seen.add(key)
             case = cases[f.case_index]
             cfgname = f.cfg if f.cfg in CONFIGS else cfgs[0]
